@@ -56,6 +56,9 @@ Actions == {"AE-1","AE-2","AE-3","AE-4","AE-5","AE-6","AE-7","AE-8","DT-1","DT-2
 (*   pvOK      : received A-ASSOCIATE-RQ has protocol version bit 0 (AE-6) *)
 (*   abortSrc  : source field of the received A-ABORT PDU: 0 user, 2 prov  *)
 (*               (AA-3)                                                    *)
+(*   headAbort : an abort request primitive is at the head of the queue of *)
+(*               local requests: "none" | "user" (A-ABORT) | "provider"    *)
+(*               (A-P-ABORT issued by the local provider)        (AA-1)    *)
 (* Fields (Open == -1 / "*" marks what the standard leaves open):           *)
 (*   next   next state                                                     *)
 (*   send   PDU put on the wire: "" | RQ AC RJ PDATA RELRQ RELRP ABORT      *)
@@ -96,7 +99,10 @@ Effect(a, ctx) ==
                            "",      Open, "RELEASE", "none",    FALSE, FALSE)
     [] a = "AR-9" -> E(11, "RELRP", Open, "",        "none",    FALSE, TRUE)
     [] a = "AR-10"-> E(12, "",      Open, "RELEASE", "none",    FALSE, FALSE)
-    [] a = "AA-1" -> E(13, "ABORT", 0,   "",        "restart", FALSE, ctx.headAbort)
+    \* the abort request that triggered AA-1 (A-ABORT, or pynetdicom's local A-P-ABORT request) is
+    \* consumed; the PDU source is service-user unless the local *provider* asked for the abort
+    [] a = "AA-1" -> E(13, "ABORT", IF ctx.headAbort = "provider" THEN Open ELSE 0,
+                                         "",        "restart", FALSE, ctx.headAbort # "none")
     [] a = "AA-2" -> E(1,  "",      Open, "",        "stop",    TRUE,  FALSE)
     [] a = "AA-3" -> E(1,  "",      Open, IF ctx.abortSrc = 0 THEN "ABORT" ELSE "PABORT",
                                                     "none",    TRUE,  FALSE)
@@ -106,8 +112,8 @@ Effect(a, ctx) ==
     [] a = "AA-7" -> E(13, "ABORT", Open, "",        "none",    FALSE, FALSE)
     [] a = "AA-8" -> E(13, "ABORT", 2,   "PABORT",  "start",   FALSE, FALSE)
 
-Ctxs == [requestor : BOOLEAN, pvOK : BOOLEAN, abortSrc : {0, 2}, headAbort : BOOLEAN]
-Ctx0 == [requestor |-> TRUE, pvOK |-> TRUE, abortSrc |-> 0, headAbort |-> FALSE]
+Ctxs == [requestor : BOOLEAN, pvOK : BOOLEAN, abortSrc : {0, 2}, headAbort : {"none", "user", "provider"}]
+Ctx0 == [requestor |-> TRUE, pvOK |-> TRUE, abortSrc |-> 0, headAbort |-> "none"]
 
 \* The possible next states of a cell (over all contexts)
 NextStates(e, s) == {Effect(Tbl(e, s), c).next : c \in Ctxs}
